@@ -426,14 +426,19 @@ impl Tunnel {
 
         if let Some(auth) = &forwarder_auth {
             let authenticator = forwarder.lock().unwrap().datagram_mux_authenticator();
-            if let Err(e) = authenticator
-                .check_auth(
+            // the forwarder may have to talk to its upstream server for this: an outbound
+            // attempt like any other one
+            if let Err(e) = tokio::time::timeout(
+                context.settings.connection_establishment_timeout,
+                authenticator.check_auth(
                     client_address,
                     &tls_domain,
                     auth.clone(),
                     user_agent.as_ref().map(String::as_ref),
-                )
-                .await
+                ),
+            )
+            .await
+            .unwrap_or(Err(ConnectionError::Timeout))
             {
                 return Err((Some(request), "Failed to authenticate", e));
             }
